@@ -476,6 +476,10 @@ class Interp:
     def _e_UnaryOp(self, e, env, f):
         if isinstance(e.op, ast.Not):
             return Const(not self.truth(self.ev(e.operand, env, f), e.operand))
+        if isinstance(e.op, (ast.USub, ast.UAdd)):
+            v = self.ev(e.operand, env, f)
+            if isinstance(v, Const) and isinstance(v.v, (int, float)) and not isinstance(v.v, bool):
+                return Const(-v.v if isinstance(e.op, ast.USub) else +v.v)
         raise AnalysisError(f"abstract evaluator: unary operator in `{short(e)}`")
 
     def _e_BoolOp(self, e, env, f):
@@ -691,4 +695,6 @@ class Interp:
             return self._invoke(self.prog.func(q), [callee.items[1]] + args, kw)
         if isinstance(callee, Opaque):
             return Opaque(f"{callee.what}(...)")
+        if isinstance(callee, Cls) and callee.tag in ("float", "int", "complex", "bool", "str") and len(args) == 1 and not kw:
+            return Inst(callee.tag)          # (a builtin type handed over as a value - convert(number) with convert = float)
         raise AnalysisError(f"abstract evaluator: call `{short(e)}` in {f.qualname} (line {e.lineno})")
